@@ -327,7 +327,7 @@ func checkC14(c C14Case) (o Outcome) {
 		o.Violation = V("memory", "the command exhausted the 4 GB address space\n%s", describe()).With("class", class).With("cmd", c.Cmd)
 		o.Labels = append(o.Labels, "outcome:memory")
 		return o
-	case r.Panicked() || r.Exit == 2:
+	case r.Panicked():
 		o.Violation = V("panic", "the command crashed: %s\n%s", c14PanicLine(r.Stderr), describe()).
 			With("class", c14CrashClass(r.Stderr, c.Args)).With("cmd", c.Cmd).With("panic", c14PanicLine(r.Stderr))
 		o.Labels = append(o.Labels, "outcome:panic")
